@@ -339,7 +339,10 @@ def _filter(nodes, pred):
 
 def _text_node():
   return st.fixed_dictionaries({"t": st.just("text"), "pre": st.sampled_from(["", "", "", " "]),
-                                "post": st.sampled_from(["", "", "", " ", ".", "!", " >", "'s", ", "]), "n": st.sampled_from([1, 1, 1, 2])})
+                                "post": st.sampled_from(["", "", "", "", "", "", " ", " ", ".", ".", "!", " >", "'s", ", ", ", ",
+                                                         # characters that Unicode calls line boundaries but WebVTT does not (only LF, CR, CR LF)
+                                                         "\u2028z", "\u0085y", "\x0bx", "\x0cv", "\x1cu"]),
+                                "n": st.sampled_from([1, 1, 1, 2])})
 
 
 def _entity(prof):
